@@ -1,15 +1,15 @@
 //! C03: BC1 - BC5 block decoding (tag 3); BC7 / BC6H are in c03b.rs.
 //! tag 3, args [format kind 0..10 (BC1, BC2, BC2 premultiplied, BC3, BC3 premultiplied, RXGB, BC4U, BC4S, BC5U, BC5S, BC7);
-//!              rgb_only; wide (0 = U8, 1 = U16); block bytes (8 or 16)]
+//!              rgb_only; precision (0 = U8, 1 = U16, 2 = F32 as bit patterns); block bytes (8 or 16)]  kinds 11, 12 = BC6H_UF16, BC6H_SF16
 //! observed: the 16 decoded pixels, channel by channel (through dds::decode on a 4x4 surface)
 use crate::util::*;
 use dds::*;
 
-pub const KINDS: [(Format, usize, Channels); 11] = [
+pub const KINDS: [(Format, usize, Channels); 13] = [
     (Format::BC1_UNORM, 8, Channels::Rgba), (Format::BC2_UNORM, 16, Channels::Rgba), (Format::BC2_UNORM_PREMULTIPLIED_ALPHA, 16, Channels::Rgba),
     (Format::BC3_UNORM, 16, Channels::Rgba), (Format::BC3_UNORM_PREMULTIPLIED_ALPHA, 16, Channels::Rgba), (Format::BC3_UNORM_RXGB, 16, Channels::Rgb),
     (Format::BC4_UNORM, 8, Channels::Grayscale), (Format::BC4_SNORM, 8, Channels::Grayscale), (Format::BC5_UNORM, 16, Channels::Rgb), (Format::BC5_SNORM, 16, Channels::Rgb),
-    (Format::BC7_UNORM, 16, Channels::Rgba),
+    (Format::BC7_UNORM, 16, Channels::Rgba), (Format::BC6H_UF16, 16, Channels::Rgb), (Format::BC6H_SF16, 16, Channels::Rgb),
 ];
 
 pub fn decode_block(format: Format, channels: Channels, precision: Precision, block: &[u8]) -> Option<Vec<i128>> {
@@ -27,15 +27,20 @@ pub fn decode_block(format: Format, channels: Channels, precision: Precision, bl
 }
 
 pub fn emit(out: &mut Out, kind: usize, rgb_only: bool, wide: bool, block: &[u8]) {
+    emit_p(out, kind, rgb_only, wide as usize, block);
+    // every third block also at F32
+    if out.lines.len() % 3 == 0 { emit_p(out, kind, rgb_only, 2, block); }
+}
+pub fn emit_p(out: &mut Out, kind: usize, rgb_only: bool, prec: usize, block: &[u8]) {
     let (format, len, native) = KINDS[kind];
     debug_assert_eq!(block.len(), len);
     let channels = if rgb_only { Channels::Rgb } else { native };
-    let Some(obs) = decode_block(format, channels, if wide { Precision::U16 } else { Precision::U8 }, block) else {
+    let Some(obs) = decode_block(format, channels, [Precision::U8, Precision::U16, Precision::F32][prec], block) else {
         println!("IMPL-VIOLATION decode of a {len}-byte block failed or panicked: kind {kind} {:?}", block); return;
     };
-    let mut args: Vec<i128> = vec![kind as i128, rgb_only as i128, wide as i128];
+    let mut args: Vec<i128> = vec![kind as i128, rgb_only as i128, prec as i128];
     args.extend(block.iter().map(|&b| b as i128));
-    out.count(&format!("kind_{kind}"));
+    out.count(&format!("kind_{kind}")); out.count(&format!("prec_{prec}"));
     out.case(3, &args, &obs);
 }
 
@@ -63,7 +68,7 @@ pub fn run(out: &mut Out, tier: &str, seed: u64, corpus: Option<&str>) {
                 let t: Vec<u64> = lhs.split_whitespace().filter_map(|x| x.parse().ok()).collect();
                 if t.len() >= 12 && t[0] == 3 && (t[1] as usize) < KINDS.len() && t.len() == 4 + KINDS[t[1] as usize].1 {
                     let block: Vec<u8> = t[4..].iter().map(|&b| b as u8).collect();
-                    emit(out, t[1] as usize, t[2] != 0, t[3] != 0, &block); out.count("corpus");
+                    emit_p(out, t[1] as usize, t[2] != 0, (t[3] as usize).min(2), &block); out.count("corpus");
                 }
             }
         }
